@@ -9,6 +9,7 @@ selected by the index returned from the consistency function while the per-gener
 returned with it.
 R-*-msm-2 (paired-push rule): see check_dynamic_pairs.
 """
+import os
 from bpsa.facts import callee_decl, callee_name
 from bpsa.normal import canon
 from bpsa.terms import walk, short, TERM_IDX, T
@@ -331,6 +332,18 @@ def check_consistency_pair(ctx, rule):
                             if y.tag == 'zip':
                                 parts |= {strip_mut(p).id for p in zip_parts(y)}
                         if z.id in parts and strip_mut(X).id in parts:
+                            good = True
+            if st is not None and mul and isrc and not good:
+                # an index loop `for i in k..len(X)` with st = X[i]: the index is the position of st in X by construction of the loop
+                from bpsa.terms import index_view, _view_component
+                X = src_of_elem(st)
+                for z in isrc:
+                    v_ = index_view(z) if z.tag == 'range' else None
+                    if v_ is not None and X is not None and _view_component(v_, X)[0] and it.tag == 'index':
+                        # the element must be selected with that very counter (skip(k) of the walk <-> counter from k)
+                        skipped = v_.tag == 'adapt' and v_[1] == 'skip'
+                        via_skip = 'skip' in ctx.adapters(lt)
+                        if skipped == via_skip:
                             good = True
         det.append('bb%d: index=%s length=%s' % (dbb, short(it, 60) if it is not None else None, short(lt, 120)))
         ok = ok and good
